@@ -23,6 +23,21 @@ Definition expected (w : list (N * N * wval)) (n g : N) : eobs :=
   | None => ENull
   end.
 
+(* /Filter and /DecodeParms a reader must find in the dictionary of a written stream (null: absent):
+   the filters passed to OpenStream in front of the chain the caller's dictionary declares,
+   the parameters index by index beside the names *)
+Definition expected_chain (w : list (N * N * wval)) (n g : N) : obj * obj :=
+  match wlookup n w with
+  | Some (g', VStream d fs data) =>
+    match norm (ODict (stream_dict n g d fs)) with
+    | ODict l =>
+      (match dict_get k_Filter l with Some o => o | None => ONull end,
+       match dict_get k_DecodeParms l with Some o => o | None => ONull end)
+    | _ => (ONull, ONull)
+    end
+  | _ => (ONull, ONull)
+  end.
+
 Definition eobs_eqb (a b : eobs) : bool :=
   match a, b with
   | ENull, ENull => true
